@@ -34,6 +34,7 @@ package input
 
 //@ func GetMeta
 //@ props C10 C15
+//@ overwrites result
 //@ modifies nothing
 //@ ensures result != nil && fresh(result) && result.DType == dtype && result.PtFlag == ptflag
 
@@ -115,6 +116,9 @@ package input
 //@ func InitPt
 //@ props C10 C15
 //@ noinv pt
+// nothing of the pooled point's earlier life survives: every field (whatever fields Point has) is assigned
+//@ overwrites pt
+//@ ensures[C15] pt.Time == tn && (t != nil ==> pt.Tags == t) && (f != nil ==> pt.Fields == f) && fresh(pt.Meta)
 //@ observe onlyMessage bool = t == nil && f != nil && (forall k string :: dom(f, k) <==> k == "message") && typeis(f["message"], string)
 //@ requires[C10] f != nil ==> (forall k string :: dom(f, k) ==> supportedField(f[k]))
 //@ requires[C10] f != nil && t != nil ==> (forall k string :: dom(t, k) ==> !dom(f, k))
@@ -143,3 +147,6 @@ package input
 //@ ensures to != from && old(dom(pt.Tags, from)) ==> dom(pt.Tags, to) && pt.Tags[to] == old(pt.Tags[from]) && !dom(pt.Fields, to)
 //@ ensures forall k string :: k != to && k != from ==> dom(pt.Fields, k) == old(dom(pt.Fields, k)) && dom(pt.Tags, k) == old(dom(pt.Tags, k)) && dom(pt.Meta, k) == old(dom(pt.Meta, k))
 //@ ensures forall k string :: k != to && k != from ==> pt.Fields[k] == old(pt.Fields[k]) && pt.Tags[k] == old(pt.Tags[k]) && pt.Meta[k] == old(pt.Meta[k])
+
+// C16: the point operations write only the point, its index entries and run-time values
+//@ framesweep[C16] runtime.runWrites * -init
